@@ -4448,6 +4448,23 @@ class NetCDFRead(IORead):
                         grid_mapping_ncvar
                     ].copy()
 
+                    # Report coordinate variables that are not
+                    # coordinates of this data variable
+                    for ncvar in coordinates:
+                        if ncvar not in ncvar_to_key:
+                            self._add_message(
+                                field_ncvar,
+                                ncvar,
+                                message=(
+                                    "Grid mapping coordinate variable",
+                                    "is not used by data variable",
+                                ),
+                                attribute={
+                                    field_ncvar
+                                    + ":grid_mapping": grid_mapping
+                                },
+                            )
+
                     # Convert netCDF variable names to internal identifiers
                     coordinates = [
                         ncvar_to_key[ncvar]
